@@ -43,6 +43,7 @@ def check(run: Run, prog: Program, model: Model, tier: str) -> None:
         " No function of the dispatch chain answers from instance or module-level state that the chain itself fills.")
     run.explanation += " TRANSPARENT: on every path through Schema.__accept__ -> visit -> hook, the visitor returns exactly the hook call's result and nothing raises after the hook returned."
     run.explanation += " DISPATCH-STATE also covers CustomSchema's own @final hooks (state kept on the instance)."
+    run.explanation += " DISPATCH-CHAIN also compares the keyword set that reaches the user's hook with the caller's (an overriding visit() that adds a keyword is a violation); TRANSPARENT has three links: fallback -> visit, visit -> __d42_*__, __d42_*__ -> user hook (the hook's answer is returned on every path)."
     run.rule_text = ("one obligation per member-descent site (ONLY-ACCEPT), per link of the dispatch chain and per entry "
                      "function; non-trivial = established on interpreter paths through inlined helpers")
     unroll = 1
@@ -151,6 +152,11 @@ def _dispatch_chain(run: Run, prog: Program, model: Model) -> None:
                 got = kw.get(n)
                 if got is None or got.key() != ctx_syms[n].key():
                     probs.append(f"`{n}` is not forwarded unchanged to {hook_name} (got {got.key() if got is not None else 'nothing'})")
+            # ... and nothing is added: a keyword of the visitor's own invention travels down through **kwargs and meets
+            # itself at the next custom member (TypeError: multiple values), which a built-in member never sees
+            extra_kw = sorted(k for k in kw if not k.startswith("**") and k not in names)
+            if extra_kw:
+                probs.append(f"{vis}.visit adds the keyword(s) {extra_kw} to the call of {hook_name}: nested custom members receive them twice")
             if probs:
                 run.violated("DISPATCH-CHAIN", construct, e.loc(prog), "; ".join(probs),
                              witness=_witness(vis, probs))
@@ -233,6 +239,24 @@ def _dispatch_chain(run: Run, prog: Program, model: Model) -> None:
         else:
             run.holds("DISPATCH-CHAIN", construct, e.loc(prog),
                       f"{hook_name}(visitor, {', '.join(n + '=' + n for n in names)}, **kwargs)", nontrivial=True)
+        # TRANSPARENT (link 3): what the user hook answered is what CustomSchema's own hook answers
+        t3: List[str] = []
+        for p3, e3 in found_all:
+            res_key = "call(" + e3.data["callee"].key()
+            idx3 = p3.events.index(e3)
+            if p3.outcome == "return":
+                if p3.value is None or not p3.value.key().startswith(res_key):
+                    t3.append(f"{d42hook} returns {p3.value.key()[:40] if p3.value is not None else None}, not what {userhook} returned")
+            elif p3.outcome == "raise" and any(ev3.kind == "raise" for ev3 in p3.events[idx3 + 1:]):
+                cond3 = [("" if b else "not ") + k for k, _, b in p3.facts[e3.nfacts:]][-1:]
+                exc3 = p3.value.cls_name if isinstance(p3.value, ExcV) else "an exception"
+                t3.append(f"after {userhook} has returned, {d42hook} may still raise {exc3}" + (f" (when {cond3[0][:70]})" if cond3 else ""))
+        c3 = f"{vis}: the answer of {userhook} is the answer of CustomSchema.{d42hook}"
+        if t3:
+            run.violated("TRANSPARENT", c3, m.loc, "; ".join(sorted(set(t3)))[:300],
+                         witness="a custom type forwarding to schema.none: fake() raises where the built-in yields None")
+        else:
+            run.holds("TRANSPARENT", c3, m.loc, "returned unchanged on every path; no raise after the hook", nontrivial=True)
     # the fallback `visit` of a shared visitor singleton must not answer from state left by earlier calls
     from .c17 import hidden_state
     from ..report import Run as _Run
@@ -419,4 +443,13 @@ MUTANTS += [
     {"name": "custom representations cached by id(schema)", "rule": "DISPATCH-STATE",
      "edits": [(REP, "            return cast(str, represent_method(self, indent=indent, **kwargs))", "            key = (id(schema), indent)\n            if key not in self._cache:\n                self._cache[key] = cast(str, represent_method(self, indent=indent, **kwargs))\n            return self._cache[key]"),
                (REP, "        self._indent = indent\n", "        self._indent = indent\n        self._cache: dict = {}\n")]},
+]
+
+# round 7: the seeded changes that were missed on first contact, replayed against the current tree
+MUTANTS += [
+    {"name": 'seeded C16-M', "rule": 'DISPATCH-CHAIN',
+     "edits": [('d42/substitution/_validator.py', 'from niltype import Nil, Nilable\nfrom th import PathHolder\n\nfrom d42.declaration.types import DictSchema, ListSchema\nfrom d42.utils import is_ellipsis\nfrom d42.validation import ValidationResult, Validator\nfrom d42.validation.errors import (\n', 'from niltype import Nil, Nilable\nfrom th import PathHolder\n\nfrom d42.declaration.types import DictSchema, GenericSchema, ListSchema\nfrom d42.utils import is_ellipsis\nfrom d42.validation import ValidationResult, Validator\nfrom d42.validation.errors import (\n'),
+               ('d42/substitution/_validator.py', '\n\nclass SubstitutorValidator(Validator):\n    def visit_list(self, schema: ListSchema, *,\n                   value: Any = Nil, path: Nilable[PathHolder] = Nil,\n                   **kwargs: Any) -> ValidationResult:\n', "\n\nclass SubstitutorValidator(Validator):\n    def visit(self, schema: GenericSchema, *, value: Any = Nil, path: Nilable[PathHolder] = Nil,\n              **kwargs: Any) -> ValidationResult:\n        # Types without a dedicated ``visit_*`` method (custom types) are validated by their\n        # own ``__validate__`` hook. While substituting, the value is a *pattern*: it may be\n        # partial and may contain ``...`` placeholders, which a hook written for real values\n        # does not expect. Tell the hook which kind of validation is going on, so that it\n        # can be lenient too (hooks that don't care simply ignore the extra keyword).\n        return super().visit(schema, value=value, path=path, substitution=True, **kwargs)\n\n    def visit_list(self, schema: ListSchema, *,\n                   value: Any = Nil, path: Nilable[PathHolder] = Nil,\n                   **kwargs: Any) -> ValidationResult:\n")]},
+    {"name": 'seeded C16-N', "rule": 'TRANSPARENT',
+     "edits": [('d42/custom_type/_custom_type.py', '    @final\n    def __d42_generate__(self, visitor: Generator, **kwargs: Any) -> Any:\n        if generate_method := getattr(self, "__generate__", None):\n            return generate_method(visitor, **kwargs)\n        raise NotImplementedError(\n            f"{self.__class__.__name__} has no method \'__generate__\'")\n\n', '    @final\n    def __d42_generate__(self, visitor: Generator, **kwargs: Any) -> Any:\n        if generate_method := getattr(self, "__generate__", None):\n            generated = generate_method(visitor, **kwargs)\n            if generated is None:\n                # a hook whose branches do not all end in `return` yields None silently, and the\n                # missing value only shows up much later, as a validation error far from its cause\n                raise ValueError(\n                    f"{self.__class__.__name__}.__generate__ returned no value")\n            return generated\n        raise NotImplementedError(\n            f"{self.__class__.__name__} has no method \'__generate__\'")\n\n')]},
 ]
